@@ -16,7 +16,7 @@ DEFAULT_KNOBS = dict(
     listeners=(0, 2), multi_prov=0.2, sends=0.0, raises=0.0, guard_raise=0.0, ops=(1, 12),
     unknown_ev=0.1, p_activate=0.03, p_construct=0.03, p_write=0.03, rtc_false=0.15, allow=0.3,
     resume=0.1, start=0.1, send_budget=8, scripts=(0, 4), ret_none=0.3,
-    p_async=0.0, async_mode=None, yields=0.0, falsy_machine=0.06, share_groups=0.15, p_values=0.15, styles=("str", "str", "list", "obj", "assign"),
+    attr_guards=0.0, p_async=0.0, async_mode=None, yields=0.0, falsy_machine=0.06, share_groups=0.15, p_values=0.15, styles=("str", "str", "list", "obj", "assign"),
 )
 SHARE = ["val", "before", "on", "after", "enter", "exit"]
 STATE_VALUES = [0, 1, 2, -1, {"s": 0}, {"s": 1}, {"t": [1]}, {"t": []}, 10, 11, 12]
@@ -107,6 +107,18 @@ def gen_scenario(rng, knobs=None):
     states = [{"enter": pick_names("enter", K["cbs"], 2), "exit": pick_names("exit", K["cbs"], 2)}
               for _ in range(n)]
 
+    # some guard names are plain attributes (numbered 500..) instead of methods
+    if K["attr_guards"] > 0:
+        ren = {}
+        for nm in by_group.get("cond", []):
+            if rng.random() < K["attr_guards"]:
+                ren[nm[1]] = 500 + nm[1]
+        for t in trans:
+            for c in t["cond"]:
+                if c[0][1] in ren:
+                    c[0] = [0, ren[c[0][1]]]
+        if ren:
+            K["sends"] = 0.0      # attribute values are assigned after attachment: no event may run before that
     # providers
     nprov = 2 + rng.randint(*K["listeners"])
     provs = [[] for _ in range(nprov)]
@@ -210,7 +222,8 @@ def gen_scenario(rng, knobs=None):
     rng.shuffle(order)
     for p, nm, group in order:
         key = (p, tuple(nm))
-        scripts = [script_for(key, group) for _ in range(rng.randint(*K["scripts"]))]
+        nscripts = 0 if (nm[0] == 0 and nm[1] >= 500) else rng.randint(*K["scripts"])   # attributes: one value
+        scripts = [script_for(key, group) for _ in range(nscripts)]
         dflt = {"a": [], "r": ret_for(group)}
         tbl.append([p, nm[0], nm[1], scripts, dflt])
 
